@@ -218,7 +218,14 @@ def run_extra(case, real):
     if name == "finite":
         return numpoly.isfinite(a), numpy.isfinite(a), numpoly.isfinite(b)
     if name == "getset":
-        return a[..., None] if a.ndim else a[None], a.ravel(), a.T, list(a)[:2] if a.ndim else None
+        # what indexing returns is the caller's own object: writing into its storage must not
+        # reach the array it was taken from (the source is part of the compared result)
+        parts = [a[..., None] if a.ndim else a[None], a.ravel(), a.T, list(a)[:2] if a.ndim else None,
+                 a[0] if a.ndim else a[()], a[...], a[::-1] if a.ndim else None]
+        taken = a[0:1] if a.ndim else a[...]
+        raw = taken.values
+        raw[raw.dtype.names[0]] = 77
+        return parts, a, numpoly.polynomial(a) + 0
     raise ValueError(name)
 
 
